@@ -131,6 +131,10 @@ func doDump(u *ir.Universe, what string) {
 		}
 		return
 	}
+	vname := ""
+	if i := strings.LastIndex(name, "@"); i >= 0 {
+		vname, name = name[i+1:], name[:i]
+	}
 	pkg, fname, _ := strings.Cut(name, ".")
 	fn := u.Func(pkg, fname)
 	if fn == nil {
@@ -149,6 +153,14 @@ func doDump(u *ir.Universe, what string) {
 		}
 		for _, o := range e.Opaque {
 			fmt.Printf("OPAQUE %s at %s args %v\n", o.Callee, u.InstrPos(o.Site), ir.PathStrings(o.Args))
+		}
+	case "one":
+		for _, b := range fn.Blocks {
+			for _, in := range b.Instrs {
+				if v, ok := in.(ssa.Value); ok && v.Name() == vname {
+					fmt.Println(v.Name(), in.String(), ir.PathStrings(u.PathsOf(v)))
+				}
+			}
 		}
 	case "sites":
 		rules.DumpSites(u, fn)
